@@ -20,7 +20,7 @@ PIDS = ["C%02d" % i for i in range(1, 20)]
 
 
 def rules_md():
-    d = sorted(glob.glob(os.path.join(VERIF, ".cache", "facts-ws-*")))[-1]
+    d = max(glob.glob(os.path.join(VERIF, ".cache", "facts-ws-*")), key=os.path.getmtime)
     prog = Prog(d)
     props = {json.loads(l)["id"]: json.loads(l) for l in open(os.path.join(VERIF, "properties.jsonl"))}
     out = []
